@@ -291,6 +291,7 @@ def _walk_ops(doc, pdfread, data, resources, ctm, out, base, depth=0, inpattern=
     """interpret q/Q/cm/Do/scn in a content stream; out gets ('image', objnum, ctm, inpattern) records"""
     stack = []
     cur_pattern = None
+    pending = []
     xobjs = doc.resolve(resources.get('XObject')) or {} if resources else {}
     pats = doc.resolve(resources.get('Pattern')) or {} if resources else {}
     for op, args in pdfread.tokenize_content(data):
@@ -316,6 +317,14 @@ def _walk_ops(doc, pdfread, data, resources, ctm, out, base, depth=0, inpattern=
             cur_pattern = str(args[-1])
         elif op == 're' and cur_pattern is not None:
             out.append(('fillrect', cur_pattern, tuple(float(x) for x in args), ctm))
+        elif op == 're':
+            pending.append((tuple(float(x) for x in args), ctm))
+        elif op in ('n', 'S', 's'):
+            pending = []
+        elif op in ('f', 'f*', 'F', 'B', 'B*', 'b', 'b*') and cur_pattern is None:
+            for a, m in pending:
+                out.append(('rect', a, m, inpattern))
+            pending = []
         elif op in ('f', 'f*', 'F') and cur_pattern is not None and depth < 8:
             pobj = doc.resolve(pats[cur_pattern])
             pm = tuple(float(x) for x in doc.resolve(pobj.dict['Matrix']))
@@ -483,6 +492,15 @@ def render_images(case):
 
     for pi, page in enumerate(doc.pages):
         walk(page._page_box, pi)
+        pb = page._page_box
+        cb = getattr(pb, 'canvas_background', None)
+        for layer in (cb.layers if cb is not None else ()):
+            if layer.image is None:
+                obs['bgs'].append(dict(id='canvas', page=pi, unused=True))
+            else:
+                obs['bgs'].append(dict(key=id(layer), id='canvas', page=pi, unused=False, size=list(layer.size),
+                                       position=list(layer.position), positioning=list(layer.positioning_area),
+                                       painting=list(layer.painting_area), repeat=list(layer.repeat)))
     _TRACE['log'] = []
     try:
         pdf = doc.write_pdf(**case.get('pdf_options', {}))
@@ -737,6 +755,96 @@ def xobject_probe(case):
             src_q = {k: list(v) for k, v in Image.open(io.BytesIO(data)).quantization.items()}
         out['items'][eid] = {'painted': painted, 'truth': {'mode': tmode, 'size': tsize, 'grid': tgrid, 'samples': tsamples},
                              'box': [bw, bh], 'same_bytes': getattr(obj, 'raw', None) == data, 'src_qtables': src_q}
+    return out
+
+
+# ------------------------------------------------------------------ SVG: viewBox -> viewport
+
+def preserve_ratio_direct(c):
+    """c: vb (4 strings or None), via ('node'|'arg'), par (string or None), root (bool), intr (2 of str/None), w, h"""
+    from weasyprint.svg.utils import preserve_ratio
+    vb = tuple(Fraction(x) for x in c['vb']) if c['vb'] else None
+    attrs = {} if c['par'] is None else {'preserveAspectRatio': c['par']}
+    node = SimpleNamespace(tag='svg', get_viewbox=lambda: (vb if c['via'] == 'node' else None),
+                           get=lambda k, d=None: attrs.get(k, d))
+    intr = tuple(None if x is None else Fraction(x) for x in c['intr'])
+    svg = SimpleNamespace(tree=node if c['root'] else object(), get_intrinsic_size=lambda font_size: intr)
+    try:
+        out = preserve_ratio(svg, node, 16, Fraction(c['w']), Fraction(c['h']), vb if c['via'] == 'arg' else None)
+    except RAISES:
+        return 'raise'
+    return [_s(v) for v in out]
+
+
+def svg_markup(it, inline=False):
+    vx, vy, vw, vh = it['vb']
+    par = '' if it['par'] is None else ' preserveAspectRatio="%s"' % it['par']
+    size = ' width="%s" height="%s"' % tuple(it['attr_size']) if it.get('attr_size') else ''
+    ident = ' id="%s"' % it['id'] if inline else ''
+    return ('<svg xmlns="http://www.w3.org/2000/svg"%s viewBox="%s %s %s %s"%s%s><rect x="%s" y="%s" width="%s" height="%s" '
+            'fill="#%06x"/></svg>' % (ident, vx, vy, vw, vh, par, size, vx, vy, vw, vh, it['color']))
+
+
+def svg_probe(case):
+    """case: items [{id, kind img|bg|inline, vb, par, color, css (style string), attr_size}] -> for each the layout
+    geometry and the viewBox-filling rectangle(s) found in the content stream (page px)"""
+    from weasyprint import HTML
+    from weasyprint.formatting_structure import boxes
+    import pdfread
+    blobs = {it['id'] + '.svg': svg_markup(it).encode() for it in case['items'] if it['kind'] != 'inline'}
+
+    def fetcher(url, *a, **k):
+        return {'string': blobs[url.rsplit('/', 1)[-1]], 'mime_type': 'image/svg+xml'}
+
+    parts = []
+    for it in case['items']:
+        if it['kind'] == 'img':
+            parts.append('<div style="width:300px;margin:0 0 4px 0"><img id="%s" src="%s.svg" style="display:block;%s"></div>'
+                         % (it['id'], it['id'], it['css']))
+        elif it['kind'] == 'bg':
+            parts.append('<div id="%s" style="margin:0 0 4px 0;background-image:url(%s.svg);background-repeat:no-repeat;%s"></div>'
+                         % (it['id'], it['id'], it['css']))
+        else:
+            parts.append('<div style="width:300px;margin:0 0 4px 0">%s</div>' % svg_markup(it, inline=True).replace(
+                '<svg ', '<svg style="display:block;%s" ' % it['css'], 1))
+    html = ('<style>@page{size:400px 6000px;margin:0}html,body{margin:0;padding:0}</style>' + ''.join(parts))
+    doc = HTML(string=html, url_fetcher=fetcher, base_url='http://img.test/').render()
+    geo = {}
+
+    def walk(b):
+        b = getattr(b, '_box', b)
+        eid = b.element.get('id') if getattr(b, 'element', None) is not None else None
+        if eid is not None:
+            if isinstance(b, boxes.ReplacedBox):
+                geo[eid] = dict(kind='box', w=b.width, h=b.height, cx=b.content_box_x(), cy=b.content_box_y(),
+                                intrinsic=list(b.replacement.get_intrinsic_size(b.style['image_resolution'], b.style['font_size'])))
+            elif getattr(b, 'background', None) is not None and b.background.layers:
+                layer = b.background.layers[0]
+                if layer.image is not None:
+                    geo[eid] = dict(kind='layer', size=list(layer.size), position=list(layer.position),
+                                    positioning=list(layer.positioning_area))
+        for c in getattr(b, 'all_children', lambda: ())():
+            walk(c)
+    for page in doc.pages:
+        walk(page._page_box)
+    pdf = doc.write_pdf(uncompressed_pdf=True)
+    d = pdfread.parse(pdf)
+    rects = []
+    for page in d.pages():
+        hpt = float(page['MediaBox'][3])
+        res = d.resolve(page.get('Resources')) or {}
+        for rec in _walk_ops(d, pdfread, d.page_content(page), res, (1, 0, 0, 1, 0, 0), [], (1, 0, 0, 1, 0, 0)):
+            if rec[0] != 'rect':
+                continue
+            (x, y, w, h), (a, b, c, dd, e, f) = rec[1], rec[2]
+            xs = [a * px + c * py + e for px in (x, x + w) for py in (y, y + h)]
+            ys = [b * px + dd * py + f for px in (x, x + w) for py in (y, y + h)]
+            rects.append(dict(args=[x, y, w, h], skew=[b, c], x=min(xs) / 0.75, y=(hpt - max(ys)) / 0.75,
+                              w=(max(xs) - min(xs)) / 0.75, h=(max(ys) - min(ys)) / 0.75))
+    out = {'problems': d.problems[:3], 'items': {}}
+    for it in case['items']:
+        vb = [float(v) for v in it['vb']]
+        out['items'][it['id']] = dict(geo=geo.get(it['id']), rects=[r for r in rects if r['args'] == vb])
     return out
 
 
